@@ -65,6 +65,17 @@ def check(run, P):
     _run(run, P)
     _loop(run, P)
     _handlers(run, P)
+    run.rule("C03.zip", "sequences that are walked in parallel are ordered the same way "
+             "(no zip() of one reversed or sorted sequence with another that is not)",
+             minimum=5)
+    run.rule("C03.reduce", "reductions over the entries of a value accumulate: the "
+             "per-entry statement of every result-computing type visitor reads the "
+             "result it assigns", minimum=3)
+    run.rule("C03.utypes", "user types are collected from the *kinds* of every table "
+             "(global and per phase)", minimum=2)
+    _zip(run, P)
+    _reduce(run, P)
+    _utypes(run, P)
     run.rule("C03.release", "release / allocation discipline that keeps the generated "
              "program from using freed storage (shared with C12.exit / C12.alloc / "
              "C12.lastuse / C12.move)", minimum=12)
@@ -330,3 +341,78 @@ def _handlers(run, P):
     run.ob("C03.handlers", li, li.node, ok,
            construct="dispatch by 'emit_inst_' + type(inst).__name__",
            why="naming convention the handlers rely on")
+
+
+def _zip(run, P):
+    from .c14 import _seq_signature
+    n = 0
+    for modname in ("dagrt.codegen.fortran", "dagrt.codegen.codegen_base", "dagrt.codegen.dag_ast",
+                    "dagrt.codegen.analysis", "dagrt.codegen.transform", "dagrt.data"):
+        m = P.module(modname)
+        for f in m.functions.values():
+            for x in ast.walk(f.node):
+                if isinstance(x, ast.Call) and dotted(x.func) == "zip" and len(x.args) >= 2 \
+                        and not any(isinstance(a_, ast.Starred) for a_ in x.args):
+                    sigs = [_seq_signature(f.node, a_) for a_ in x.args]
+                    ops = {s_[1] for s_ in sigs}
+                    n += 1
+                    run.ob("C03.zip", f, x, len(ops) == 1,
+                           construct=f"zip over {[s_[0][:30] + ('/' + '/'.join(s_[1]) if s_[1] else '') for s_ in sigs]}",
+                           why="the sequences describe the same axes / arguments / phases by "
+                               "position: reversing some of them and not the others pairs "
+                               "every loop index with another axis's extent")
+    if n == 0:
+        raise AnalysisError("C03.zip: no zip() found")
+
+
+def _reduce(run, P):
+    m = P.module("dagrt.codegen.fortran")
+    base = m.classes.get("TypeVisitorWithResult")
+    if base is None:
+        raise AnalysisError("fortran.TypeVisitorWithResult not found")
+    n = 0
+    for c in sorted(P.subclasses(base), key=lambda c: c.name):
+        f = c.methods.get("visit_BuiltinType")
+        if f is None:
+            continue
+        tmpls = []
+        for x in ast.walk(f.node):
+            if isinstance(x, ast.Call) and isinstance(x.func, ast.Attribute) and x.func.attr == "format":
+                t = string_value(x.func.value)
+                if t is not None:
+                    tmpls.append((x, t))
+        assigns = [(x, t) for x, t in tmpls if t.lstrip().startswith("{result} =")]
+        if not assigns:
+            continue
+        n += 1
+        x, t = assigns[0]
+        rhs = t.split("=", 1)[1]
+        run.ob("C03.reduce", f, x, "{result}" in rhs,
+               construct=f"{c.name}: per-entry statement '{t.strip()[:60]}'",
+               why="the statement is emitted once per entry of the value: without the "
+                   "result on its right-hand side only the last entry visited decides "
+                   "(a NaN in the first entry of a vector goes unnoticed)")
+    if n < 3:
+        raise AnalysisError(f"C03.reduce: {n} result-computing visitors found")
+
+
+def _utypes(run, P):
+    f = P.func("dagrt.data.collect_user_types")
+    loops = [x for x in ast.walk(f.node) if isinstance(x, ast.For) and isinstance(x.target, ast.Name)
+             and any(isinstance(y, ast.Call) and dotted(y.func) == "isinstance" and y.args
+                     and dotted(y.args[0]) == x.target.id and "UserType" in ast.unparse(y.args[1])
+                     for s_ in x.body if not isinstance(s_, ast.For) for y in ast.walk(s_))]
+    if len(loops) < 2:
+        raise AnalysisError("collect_user_types: loops testing for UserType not found")
+    for lp in loops:
+        it = lp.iter
+        ok = isinstance(it, ast.Call) and isinstance(it.func, ast.Attribute) and it.func.attr == "values"
+        run.ob("C03.utypes", f, lp, ok,
+               construct=f"for {lp.target.id} in {norm(it, 50)}: if isinstance({lp.target.id}, UserType)",
+               why="iterating the table itself yields names: no user type is found, and the "
+                   "generator emits no allocation-check / release routine for a type that "
+                   "only phase-local variables have (the module does not link)")
+    srcs = " ".join(norm(lp.iter) for lp in loops) + " " + ast.unparse(f.node)
+    run.ob("C03.utypes", f, f.node, "global_table" in srcs and "per_phase_table" in srcs,
+           construct="both the global table and every per-phase table are scanned",
+           why="a type used only by locals still needs its routines")
